@@ -208,9 +208,25 @@ def _random_drawing(rng, h, w, cells, tries=12):
 
 def gen_problem(rng, tier):
     h, w = rng.choice(_SHAPES)
+    return _gen(rng, h, w)
+
+
+def extra_program_problems(rng):
+    """Larger boards for the program correspondence only (nothing is enumerated there): one non-square medium board and two
+    with more than 256 cells (a tall and a wide one); one firefly per 9 to 16 cells (rim and corners included), dots and
+    turn numbers read off random self-avoiding lines where such a drawing is found, else random; one of the three boards
+    uses the unstructured mode (random fireflies, turn numbers up to two digits)."""
+    sizes = _loop.big_shapes(rng)
+    loose = rng.randrange(len(sizes))
+    return [_gen(rng, h, w, mode=0.9 if i == loose else 0.5, kbig=rng.randint(h * w // 16, h * w // 9))
+            for i, (h, w) in enumerate(sizes)]
+
+
+def _gen(rng, h, w, mode=None, kbig=None):
     pb = [[".."] * w for _ in range(h)]
     cells = [(y, x) for y in range(h) for x in range(w)]
-    mode = rng.random()
+    if mode is None:
+        mode = rng.random()
     if mode < 0.08:
         pass                                                    # empty board (READING (a))
     elif mode < 0.13 and h >= 2 and w >= 2:
@@ -238,7 +254,7 @@ def gen_problem(rng, tier):
     elif mode < 0.72:
         dr = None
         for _attempt in range(8):
-            k = rng.choice([1, 1, 2, 2, 2, 3, 3, 4])
+            k = rng.choice([1, 1, 2, 2, 2, 3, 3, 4]) if kbig is None else kbig
             k = min(k, len(cells))
             pick = list(cells)
             rng.shuffle(pick)
@@ -274,7 +290,7 @@ def gen_problem(rng, tier):
                 y, x = rng.choice(cells)
                 pb[y][x] = rng.choice("^v<>") + rng.choice(["?", "0", "1"])
     else:
-        p = rng.choice([0.15, 0.3, 0.5])
+        p = rng.choice([0.15, 0.3, 0.5]) if kbig is None else kbig / len(cells)
         for (y, x) in cells:
             if rng.random() < p:
                 pb[y][x] = rng.choice("^v<>") + rng.choice(["?", "?", "0", "0", "1", "1", "2", "3", "4", "11"])
